@@ -100,6 +100,9 @@ class TlcResult:
                     raise ToolError(f"cannot decode TLC output for tag {tag}: {e}: {s[:300]}")
         return res
 
+    def tagged_raw(self, tag):
+        return [ln for ln in self.joined_lines() if ln.startswith('<<"' + tag + '"')]
+
     def joined_lines(self):
         lines = self.out.splitlines()
         joined, cur = [], None
@@ -122,8 +125,12 @@ class TlcResult:
     def coverage(self):
         """Per-action counts from -coverage output: {action: (distinct, total)}."""
         cov = {}
-        for m in re.finditer(r"<(\w+) line \d+, col \d+ to line \d+, col \d+ of module (\w+)>: (\d+):(\d+)", self.out):
-            cov[m.group(1)] = (int(m.group(3)), int(m.group(4)))
+        for m in re.finditer(r"<(\w+) line (\d+), col \d+ to line \d+, col \d+ of module (\w+)(?: \(([\d ]+)\))?>: (\d+):(\d+)", self.out):
+            key = m.group(1) if not m.group(4) else m.group(1) + "@" + m.group(4).replace(" ", ".")
+            # TLC prints the statistics twice (at the end and in the final summary); keep the larger
+            d, t = int(m.group(5)), int(m.group(6))
+            if key not in cov or cov[key][1] < t:
+                cov[key] = (d, t)
         return cov
 
 
